@@ -104,9 +104,10 @@ func (t *AppendOnlyTree) initCache(tx dbtypes.Txer) error {
 		}
 		return err
 	}
-	t.lastIndex = int64(lastRoot.Index)
+	// The index is only published together with the rebuilt cache: if reading a node fails half way,
+	// the cache stays "not initialised" instead of pairing the new index with the old frontier.
 	currentNodeHash := lastRoot.Hash
-	index := t.lastIndex
+	index := int64(lastRoot.Index)
 	// It starts in height-1 because 0 is the level of the leafs
 	for h := int(types.DefaultHeight - 1); h >= 0; h-- {
 		currentNode, err := t.getRHTNode(tx, currentNodeHash)
@@ -132,6 +133,7 @@ func (t *AppendOnlyTree) initCache(tx dbtypes.Txer) error {
 		siblings[i], siblings[j] = siblings[j], siblings[i]
 	}
 
+	t.lastIndex = index
 	t.lastLeftCache = siblings
 	return nil
 }
